@@ -34,6 +34,12 @@ checks = {
  "C08": ("exploration", "4.3, 4.8, 6/C08",
          "Seeded schedule exploration of 2-16 simulated tasks running pre-generated programs (pushes, manifest pushes with tag moves, deletes, mounts, reads, listings, writes/commits on one shared upload session) over a tiny shared key space against one ocimem, directly and through per-task ociclients into one shared ociserver. The simulator picks the next task at every mutex acquisition of the (mechanically rewritten) library and at every network boundary. Engine A (synctest bubble): every recorded history is checked for linearizability against the reference registry with porcupine, plus directed families (never-dangling tag; commit racing with writes). Engine B: the same scenarios under the Go race detector with raw-pipe task hand-off, so that accesses of strictly serialised tasks are still unordered for the detector.",
          "deterministic simulation: seeded scheduler over instrumented lock sites (testing/synctest), porcupine linearizability against refreg, and the race detector under a controlled serial schedule; choice-trace replay and minimisation"),
+ "C12": ("exploration", "6/C12",
+         "Seeded simulation (sequential: no schedule dimension, stated in DESIGN.md) of generated histories over all 18 Interface methods and BlobWriter use through ocifilter.AccessChecker / Select with seeded pure policies over (name, access kind), against a recording backend, an unwrapped twin registry and backend listing faults. Oracle: a rejected repository (either one for a mount) never reaches the wrapped registry, never appears in repository listings, and surfaces as the policy's error (Select: NAME_UNKNOWN for read/list/delete, DENIED for write); allowed calls return exactly what the twin returns.",
+         "deterministic simulation: seeded histories with a recording backend monitor, twin-registry differential and backend iterator fault injection; choice-trace replay and minimisation"),
+ "C13": ("exploration", "6/C13",
+         "Seeded simulation (sequential: no schedule dimension, stated in DESIGN.md) of generated histories through ocifilter.Sub(prefix) over a recording backend that also holds sibling repositories sharing a textual prefix. Caller-supplied names include empty, dot, dot-dot, leading/trailing/doubled slashes and upper case; an auth scope travels in the context. Oracle: every backend call names exactly prefix/n (or the call never reaches the backend), nothing outside the prefix is changed, repository listings from any start point are exactly the stripped names (reference model of the restricted registry), and the context scope reaches the backend rewritten for every method.",
+         "deterministic simulation: seeded histories with a recording backend monitor and a reference model of the restricted registry; choice-trace replay and minimisation"),
 }
 
 na = [
